@@ -111,14 +111,32 @@ func (w *c11World) oracle(after []m.RoutingTableEntry, lookAddrs []netip.Addr) {
 			}
 			continue
 		}
+		// hops and delay of a route as its path says (not as the table stored them): every hop counts at
+		// least 5 ms, the sum saturates at 65534, a path without delays keeps what the route carried
+		pathCost := func(e *m.RoutingTableEntry) (int, int) {
+			hops := 1
+			if n := len(e.Path.Hops); n > 1 {
+				hops = min(n-1, 254)
+			}
+			sum := 0
+			for _, h := range e.Path.Hops {
+				sum += max(int(h.Delay), 5)
+			}
+			if sum == 0 {
+				return hops, int(e.Path.TotalDelay)
+			}
+			return hops, min(sum, 65534)
+		}
 		best := es[0]
 		for _, e := range es[1:] {
 			bp, ep := best.Source == m.RouteSourcePeer, e.Source == m.RouteSourcePeer
+			eh, ed := pathCost(e)
+			bh, bd := pathCost(best)
 			switch {
 			case ep && !bp:
 				best = e
 			case bp && !ep:
-			case e.Path.TotalHops < best.Path.TotalHops || (e.Path.TotalHops == best.Path.TotalHops && e.Path.TotalDelay < best.Path.TotalDelay):
+			case eh < bh || (eh == bh && ed < bd):
 				best = e
 			}
 		}
@@ -127,7 +145,12 @@ func (w *c11World) oracle(after []m.RoutingTableEntry, lookAddrs []netip.Addr) {
 			continue
 		}
 		gp, bp := got.Source == m.RouteSourcePeer, best.Source == m.RouteSourcePeer
-		if gp != bp || (!gp && (got.Path.TotalHops != best.Path.TotalHops || got.Path.TotalDelay != best.Path.TotalDelay)) {
+		bh, bd := pathCost(best)
+		gh, gd := pathCost(got)
+		if got.Source != m.RouteSourcePeer && (int(got.Path.TotalHops) != gh || int(got.Path.TotalDelay) != gd) {
+			w.violate(fmt.Sprintf("the route returned for %s is stored with hops %d delay %d, its path says hops %d delay %d", a, got.Path.TotalHops, got.Path.TotalDelay, gh, gd), "route-cost")
+		}
+		if gp != bp || (!gp && (gh != bh || gd != bd)) {
 			w.violate(fmt.Sprintf("lookup of %s returned a route with hops %d delay %d, the table holds a better one (hops %d delay %d)", a, got.Path.TotalHops, got.Path.TotalDelay, best.Path.TotalHops, best.Path.TotalDelay), "lookup-best")
 		}
 	}
